@@ -129,6 +129,22 @@ pub fn make_binst(r: &mut StdRng, variant: usize) -> BInst {
                 if variant % 7 == 6 {
                     t = json!({ ck: null, "other": i });
                 }
+                // bare scalars at the top level of the claim: integer / float boundaries, null, booleans,
+                // empty and blank strings (all with an exact short decimal form, so that reading them
+                // back does not depend on the JSON parser's float rounding)
+                if variant % 5 == 3 {
+                    let specials: [[Value; 3]; 8] = [
+                        [json!(u64::MAX), json!(i64::MIN), json!(-0.0)],
+                        [json!(1e21), json!(1.5), json!(0)],
+                        [json!(true), json!(false), json!(null)],
+                        [json!(i64::MAX), json!(i64::MAX as u64 + 1), json!(255)],
+                        [json!(""), json!(" "), json!("\u{0}")],
+                        [json!(-1), json!(1u64 << 53), json!((1u64 << 53) + 1)],
+                        [json!(1e-7), json!(-1e21), json!(4294967296u64)],
+                        [json!([]), json!({}), json!([null])],
+                    ];
+                    t = specials[(variant / 5) % specials.len()][i].clone();
+                }
                 t
             };
             vals.insert((k.to_string(), v.to_string()), val);
